@@ -760,6 +760,7 @@ def run_git_stream(ctx, nscen, seeds=None):
             v1 = {('skills', 'foo', 'SKILL.md'): b'---\nname: foo\ndescription: d\n---\nmarker-v1\n',
                   ('skills', 'foo', 'ref', 'notes.md'): gen_content(rng),
                   ('skills', 'bar', 'SKILL.md'): b'---\nname: bar\ndescription: d\n---\nbar-v1\n',
+                  ('skills', 'baz', 'SKILL.md'): b'---\nname: baz\ndescription: d\n---\nbaz-v1\n',
                   ('SKILL.md',): b'---\nname: all\ndescription: d\n---\nall-v1\n',
                   ('README.md',): b'readme v1\n'}
             c1 = gw.commit(v1, 'c1')
@@ -768,8 +769,8 @@ def run_git_stream(ctx, nscen, seeds=None):
             if reftype == 'atag': gw.tag('v1', True)
             gw.publish()
             ref = {'branch': 'main', 'tag': 'v1', 'atag': 'v1', 'hex': c1}[reftype]
-            nmods = rng.choice([1, 1, 2])
-            subdirs = rng.sample(['skills/foo', 'skills/bar'], nmods)
+            nmods = rng.choice([1, 2, 2, 3])     # several modules locked from ONE checkout (same url + commit, different subdirs)
+            subdirs = rng.sample(['skills/foo', 'skills/bar', 'skills/baz'], nmods)
             if rng.random() < 0.2: subdirs[0] = ''        # the whole repository as a module (its .git is metadata)
             codex_home = os.path.join(sb.home, 'codex_home'); os.makedirs(codex_home)
             mods = []
@@ -918,6 +919,7 @@ def run_git_stream(ctx, nscen, seeds=None):
             v2 = dict(v1)
             v2[('skills', 'foo', 'SKILL.md')] = b'---\nname: foo\ndescription: d\n---\nmarker-v2\n'
             v2[('skills', 'bar', 'SKILL.md')] = b'---\nname: bar\ndescription: d\n---\nbar-v2\n'
+            v2[('skills', 'baz', 'SKILL.md')] = b'---\nname: baz\ndescription: d\n---\nbaz-v2\n'
             v2[('SKILL.md',)] = b'---\nname: all\ndescription: d\n---\nall-v2\n'
             v2[('README.md',)] = b'readme v2\n'
             c2 = gw.commit(v2, 'c2')
